@@ -325,3 +325,16 @@ def check(ctx):
             ctx.ok('C15.6', ctx.site(b), '%s() = the matched node\'s %s, else %s' % (name, field, default))
         else:
             ctx.fail('C15.6', ctx.site(b), '%s() returns %s' % (name, [fmt(a) for a in alts]), key='C15.6|' + name)
+
+
+_check_inner = check
+
+
+def check(ctx):
+    _check_inner(ctx)
+    from .. import panic
+    F = ctx.F
+    # the query family: every exported &self method of Envelope defined in the walk / queries / digest modules
+    entries = [b for b in F.bodies if b.dk == 'AssocFn' and b.impl_self and ty_matches(b.impl_self, 'Envelope') and not b.impl_trait
+               and any(m in b.path for m in ('::base::queries::', '::base::walk::', '::base::digest::')) and F.item_is_exported(b)]
+    panic.slice_check(ctx, 'C15.7', entries, 'query')
